@@ -226,6 +226,28 @@ class C12(BlockBase):
                         if rng.random() < 0.3:
                             e.wrap_close = rng.choice(["} ", ""]) + inl() + rng.choice(["", " é"])
             yield self.mk_items(items, gen.Spelling(), rng.random() < 0.8, label)
+        # two unwrapped blocks inside each other with independently chosen indentations of every line: the inner block's
+        # ranges may lie inside, overlap or precede the outer block's ranges on a line
+        for i in range(quick(tier, 1500, 40000)):
+            unit = rng.choice([" ", "  ", "\t"])
+            ind = lambda: unit * rng.randint(0, 4)
+            cnt = [0]
+            def ln():
+                cnt[0] += 1
+                return gen.Line(ind() + "w#%d" % cnt[0])
+            inner = gen.El(rng.choice(["tl", "rm"]), True, unwrap=True, indent=ind())
+            inner.wrap_open, inner.wrap_close = "{", "}"
+            inner.children = [ln() for _ in range(rng.randint(1, 3))]
+            if rng.random() < 0.3:
+                third = gen.El(rng.choice(["tl", "rm"]), True, unwrap=True, indent=ind())
+                third.wrap_open, third.wrap_close = "[", "]"
+                third.children = [ln() for _ in range(rng.randint(1, 2))]
+                inner.children.insert(rng.randint(0, len(inner.children)), third)
+            outer = gen.El(rng.choice(["tl", "rm"]), True, unwrap=True, indent=ind())
+            outer.wrap_open, outer.wrap_close = "(", ")"
+            outer.children = [ln() for _ in range(rng.randint(0, 2))] + [inner] + [ln() for _ in range(rng.randint(0, 2))]
+            items = [gen.Line("head#0"), outer, gen.Line("tail#0")]
+            yield self.mk_items(items, gen.Spelling(), rng.random() < 0.8, "nested-ragged")
 
     def first_line_unwrap(self, lay):
         """the opening tag of an unwrapped ready element is on line 1, or on line 2 after an empty line 1
@@ -588,6 +610,10 @@ class C15(ListBase):
         yield from self.docs(rng, tier, quick(tier, 4000, 150000))
         yield from self.multi_inline(rng, quick(tier, 600, 20000))
         yield from self.empty_wrapper(rng, quick(tier, 400, 15000))
+        # the same documents with CRLF line ends
+        for c in self.docs(rng, tier, quick(tier, 600, 20000)):
+            m = c.meta
+            yield self.mk(m["src"].replace("\n", "\r\n"), m["ds"], m["de"], Cfg.from_json(m["cfg"]), "ast-crlf")
 
     def oracle(self, case, impl, spec):
         o, err = self.unpack(impl)
@@ -640,7 +666,12 @@ class C15(ListBase):
             if it["line_range"] != [first, last]:
                 return {"fail": "C15-lines", "detail": "region %d..%d has line_range %r, expected %r" % (s, e, it["line_range"], [first, last]), "nontrivial": nt, "tags": tags}
             hl = "\n".join(re.findall(r"\x1b\[31m(.*?)\x1b\[0m", block, flags=re.S))
-            region = b[s:e].decode(errors="replace").replace("\t", "    ")
+            region = b[s:e].decode(errors="replace")
+            # a carriage return belongs to the line ending, not to the highlight (also the one in front of the line
+            # break that directly follows the region)
+            if region.endswith("\r") and b[e:e + 1] == b"\n":
+                region = region[:-1]
+            region = region.replace("\r\n", "\n").replace("\t", "    ")
             if region.endswith("\n"):
                 region = region[:-1]
             if hl != region:
